@@ -22,6 +22,7 @@ pub mod c26_time;
 pub mod c32_range;
 pub mod c36_acks;
 pub mod c37_backoff;
+pub mod c39_operators;
 
 /// Native replay of a counterexample (written by /verif/check; see DESIGN.md 2.6).
 #[cfg(all(kani, verif_playback))]
